@@ -5,3 +5,4 @@ SPECIFICATION Spec
 INVARIANT Sane
 INVARIANT Emit
 CHECK_DEADLOCK FALSE
+INVARIANT EmitInjections
